@@ -140,6 +140,11 @@ func schedSuite(suite string, kinds []string, quickN, thoroughN int) suiteFunc {
 		if tier == "thorough" {
 			n = thoroughN
 		}
+		if suite == "schedC09" {
+			for i := 0; i < 3; i++ {
+				windowCase(rng, w, suite)
+			}
+		}
 		for i := 0; i < n; i++ {
 			kind := kinds[i%len(kinds)]
 			c := 0
@@ -149,4 +154,83 @@ func schedSuite(suite string, kinds []string, quickN, thoroughN int) suiteFunc {
 			schedCase(rng, w, suite, kind, c)
 		}
 	}
+}
+
+
+// A second copy of a confirmed uplink of a relaxed-counter device arrives through another gateway while the
+// first is waiting for its receive window (real time, no stepping): the scheduler holds one slot per device
+// from the notification until the buffer has been read, so the copy's own answer is dropped as a duplicate
+// and its acknowledgement request rides on the one answer. A later unconfirmed uplink must not carry an ACK.
+func windowCase(rng *rand.Rand, w *Writer, suite string) {
+	opts := worldOpts{netID: uint(rng.Intn(1 << 24)), rxDelay: 400 * time.Millisecond}
+	world := newWorld(opts)
+	defer world.close()
+	h := &histRunner{w: world, rng: rng, tags: w.Stats, lastValid: map[int][]byte{}}
+	h.gws = []uint64{genEUI(rng), genEUI(rng)}
+	a := eui64(genEUI(rng))
+	h.apps = []protocol.EUI{a}
+	world.store.CreateApplication(model.Application{AppEUI: a})
+	world.watchApp(a)
+	d := &simDev{eui: eui64(genEUI(rng)), appeui: a, appkey: genKey(rng), relaxed: true}
+	d.nwk, d.app = randBytes(rng, 16), randBytes(rng, 16)
+	d.addr = rng.Uint32()
+	d.joined = true
+	d.fup0 = []uint16{0, 1, 100}[rng.Intn(3)]
+	d.fdn0 = []uint16{0, 7}[rng.Intn(2)]
+	d.fcnt = d.fup0
+	world.store.CreateDevice(mkDevice(d.eui, d.appeui, d.addr, d.appkey, d.nwk, d.app, d.fup0, d.fdn0, d.relaxed, model.PersonalizedDevice), d.appeui)
+	d.registered = true
+	h.devs = []*simDev{d}
+	pop := fmt.Sprintf("%x:%x:%s:%s:%s:%x:%d:%d:%d:%d", uint64(d.eui.ToInt64()), d.addr, hx(d.appkey), hx(d.nwk), hx(d.app),
+		uint64(d.appeui.ToInt64()), d.fup0, d.fdn0, b01(d.relaxed), int(model.PersonalizedDevice))
+	if rng.Intn(2) == 0 {
+		h.submit(d, uint8(1+rng.Intn(200)), false, randBytes(rng, 1+rng.Intn(20)))
+	}
+	pre := append([]string{}, h.events...)
+	f1 := h.validUplink(d, true, false, d.fcnt, 1+rng.Intn(200), randBytes(rng, rng.Intn(20)), nil)
+	f3 := h.validUplink(d, false, false, d.fcnt+1, 1+rng.Intn(200), randBytes(rng, rng.Intn(20)), nil)
+	mk := func(raw []byte, gw uint64) (server.GatewayPacket, string) {
+		datr := datrs[rng.Intn(len(datrs))]
+		rssi := int32(-rng.Intn(130))
+		snr8 := rng.Intn(281) - 160
+		ch := uint8(rng.Intn(8))
+		clock := rng.Uint32()
+		now := time.Now()
+		ts := now.UnixNano() - 1600000000000000000
+		return server.GatewayPacket{
+			RawMessage: append([]byte{}, raw...),
+			Radio:      server.RadioContext{Channel: ch, RFChain: 0, Frequency: 868.1, DataRate: datr, Band: eu868, RSSI: rssi, SNR: float32(snr8) / 8},
+			Gateway:    server.GatewayContext{GatewayEUI: eui64(gw), GatewayHost: "127.0.0.1", GatewayPort: 1700, GatewayClock: clock, ProtocolVersion: 2},
+			ReceivedAt: now,
+		}, fmt.Sprintf("R,%s,%x,%d,%s,%d/%d,%d,%d,,0", hx(raw), gw, ts, datr, rssi, snr8, ch, clock)
+	}
+	render := func() string {
+		downs, _, _ := world.collect()
+		var dl []string
+		for _, x := range downs {
+			dl = append(dl, fmt.Sprintf("%s:%d:%x:%d", hx(x.RawMessage), x.Radio.RX1Delay, uint64(x.Gateway.GatewayEUI.ToInt64()), x.Gateway.GatewayClock))
+		}
+		sort.Strings(dl)
+		return "D[" + strings.Join(dl, ";") + "] P[] " + h.dumpAll()
+	}
+	p1, e1 := mk(f1, h.gws[0])
+	world.inject(p1)
+	time.Sleep(30 * time.Millisecond) // well inside the first copy's window
+	p2, e2 := mk(f1, h.gws[1])
+	world.inject(p2)
+	if !world.quiesce() {
+		w.Case(suite, []string{"kind=window", "pop=" + pop}, "HUNG")
+		return
+	}
+	o1 := render()
+	p3, e3 := mk(f3, h.gws[0])
+	world.inject(p3)
+	if !world.quiesce() {
+		w.Case(suite, []string{"kind=window", "pop=" + pop}, "HUNG")
+		return
+	}
+	o2 := render()
+	w.Case(suite, []string{fmt.Sprintf("cfg=%d:0", opts.netID), fmt.Sprintf("apps=%x", uint64(a.ToInt64())), "pop=" + pop,
+		"pre=" + strings.Join(pre, "|"), "f1=" + e1, "f2=" + e2, "f3=" + e3, "kind=window", "sched="}, o1+"|"+o2)
+	w.Count("sched.window")
 }
